@@ -77,3 +77,12 @@ def nontrivial(case, obs):
 
 def shrink_candidates(case):
     return []
+
+
+def finding_key(case, obs, model, oracle):
+    # D24: the scan of a result resumes at a byte offset after the lost task output was recomputed; a recomputed output
+    # whose row order is not fixed (Fold's map order, arrival order of shuffled inputs) is not byte-identical
+    if ("wrong rows after a machine loss (the program does not fix the row order of its result)" in oracle
+            and "KILL Worker.Read" in case and " mid" in case):
+        return "resumed-read-of-recomputed-unordered-output"
+    return None
